@@ -293,7 +293,7 @@ func (g *GetEntry) Command(ctx context.Context) *redis.StringCmd {
 }
 
 func ParseGetEntryCommand(cmd redcon.Command) (*GetEntry, error) {
-	if len(cmd.Args) < 2 {
+	if len(cmd.Args) < 3 {
 		return nil, errWrongNumber(cmd.Args)
 	}
 
